@@ -6,11 +6,12 @@ CONSTANTS
   MaxEpoch = 1
   Validators = {1, 2}
   Actives = {{1}, {1, 2}}
-  StartSlots = {0, 2}
+  StartSlots = {2}
   Lags <- LagsAtt
-  MaxReorgs = 1
+  MaxReorgs = 0
   MaxIdx = 1
   MaxFails = 0
+  InitDuties = FALSE
   Weaken = "none"
 INVARIANT TypeOK
 INVARIANT AtMostOnce
